@@ -70,6 +70,69 @@ VALUES = {
     dict: [{'a': 'x'}, {'b': [1, {'c': None}]}],
     bytes: [b'a\n', SAMPLE_DIFF],
 }
+import enum
+import collections
+
+
+class StrSub(str):
+    pass
+
+
+class StrLoud(str):
+    """str subclass whose str() differs from its data."""
+    def __str__(self):
+        return 'LOUD<%s>' % str.__str__(self)
+
+    def __repr__(self):
+        return 'StrLoud(%s)' % str.__repr__(self)
+
+
+class LE_(str, enum.Enum):
+    DOS = 'dos'
+    UNIX = 'unix'
+    JSON = 'json'
+    V10 = '1.0'
+    TEXT = 'text'
+    PLAIN = 'text/plain'
+    UTF8 = 'utf-8'
+
+
+class IntSub(int):
+    pass
+
+
+class Level(enum.IntEnum):
+    TWO = 2
+
+
+class BytesSub(bytes):
+    pass
+
+
+def subclass_candidates(typ, choices):
+    """Values whose type is a SUBCLASS of the declared type and whose value
+    is valid. The statement: the assignment either stores a value of the
+    declared type and allowed choice, or raises and leaves the tree
+    unchanged."""
+    if typ is str:
+        base = list(choices) if choices else ['utf-8']
+        out = []
+        for b in base[:2]:
+            out += [StrSub(b), StrLoud(b)]
+            for m in LE_:
+                if m.value == b:
+                    out.append(m)
+        return out
+    if typ is int:
+        return [IntSub(3), Level.TWO, True]
+    if typ is dict:
+        return [collections.OrderedDict([('b', 'x'), ('a', 'y')]),
+                collections.defaultdict(list, {'a': 'x'})]
+    if typ is bytes:
+        return [BytesSub(b'a\n')]
+    return []
+
+
 # values of the right type whose acceptance is not documented either way
 EDGE = {
     str: ['', ' ', 'no such codec', 'UTF-8'],
@@ -169,12 +232,33 @@ def check_assign(spec_, path, kind, name, value, valid):
     before = snap(tree)
     v = []
     try:
-        setattr(sec, name, copy.deepcopy(value))
+        setattr(sec, name, value if valid == 'subclass'
+                else copy.deepcopy(value))
         exc = None
     except Exception as e:
         exc = e
     after = snap(tree)
     tag = '%s.%s' % (kind, name)
+    if valid == 'subclass':
+        typ, choices, where = ATTRS[kind][name]
+        if exc is not None:
+            if freeze(after) != freeze(before):
+                v.append(('rejected-assignment-changed-tree:%s' % tag,
+                          '%s = %r raised %r but the tree changed'
+                          % (name, value, exc)))
+            return v
+        stored = stored_value(sec, kind, name)
+        ok = isinstance(stored, typ) and stored == value and \
+            getattr(sec, name) == value
+        if choices and ok:
+            ok = any(type(stored) in (str, type(value)) and stored == c
+                     for c in choices)
+        if not ok:
+            v.append(('subclass-value-stored-wrongly:%s:%s' % (
+                tag, type(value).__name__),
+                '%s = %r (%s) at %s was accepted but the section now holds '
+                '%r' % (name, value, type(value).__name__, path, stored)))
+        return v
     if valid is None:
         # value of the declared type whose acceptance the documentation does
         # not settle (negative indent, empty string, ...): either outcome is
@@ -268,6 +352,8 @@ def candidates(typ, choices):
     if not choices:
         for x in EDGE[typ]:
             out.append((x, None))
+    for x in subclass_candidates(typ, choices):
+        out.append((x, 'subclass'))
     return out
 
 
@@ -384,7 +470,11 @@ def plan(tier):
                 'operations with several attribute sets). Assignment: every '
                 'section of every tree x every own and forwarded attribute x '
                 'every candidate (valid values, both choices, bad choice, '
-                'wrong-case choice, 5-6 wrong types); constructor/add_* with '
+                'wrong-case choice, 5-6 wrong types, right-typed values of '
+                'undocumented validity, values of SUBCLASS types: str '
+                'subclasses incl. one with a different __str__ and str-Enum '
+                'members, int subclasses / IntEnum / bool, OrderedDict / '
+                'defaultdict, bytes subclass); constructor/add_* with '
                 'unknown attribute names. Equality: all ordered pairs of '
                 'base trees; every single-field perturbation (each option '
                 'changed/removed, custom option added, each content changed, '
@@ -424,10 +514,18 @@ def run_unit(unit, tier):
             for name, (typ, choices, where) in sorted(ATTRS[kind].items()):
                 for value, valid in candidates(typ, choices):
                     viols = check_assign(sp, path, kind, name, value, valid)
-                    rec(viols, {'kind': 'assign', 'spec': to_jsonable(sp),
-                                'path': path, 'skind': kind, 'name': name,
-                                'value': to_jsonable(value), 'valid': valid},
-                        (not valid) and nfiles >= 1)
+                    if valid == 'subclass':
+                        payload = {'kind': 'assign-subclass',
+                                   'spec': to_jsonable(sp), 'path': path,
+                                   'skind': kind, 'name': name,
+                                   'index': [repr(c) for c, _v in candidates(
+                                       typ, choices)].index(repr(value))}
+                    else:
+                        payload = {'kind': 'assign', 'spec': to_jsonable(sp),
+                                   'path': path, 'skind': kind, 'name': name,
+                                   'value': to_jsonable(value),
+                                   'valid': valid}
+                    rec(viols, payload, (not valid) and nfiles >= 1)
         acc.states = 1
         acc.sample({'tree': repr(sp)[:200]}, 1)
     elif kindu == 'unknown':
@@ -490,7 +588,12 @@ def check_unknown(sp, ctor, name):
 
 def replay(payload):
     k = payload.get('kind')
-    if k == 'assign':
+    if k == 'assign-subclass':
+        typ, choices, where = ATTRS[payload['skind']][payload['name']]
+        value, valid = candidates(typ, choices)[payload['index']]
+        viols = check_assign(from_jsonable(payload['spec']), payload['path'],
+                             payload['skind'], payload['name'], value, valid)
+    elif k == 'assign':
         viols = check_assign(from_jsonable(payload['spec']), payload['path'],
                              payload['skind'], payload['name'],
                              from_jsonable(payload['value']),
